@@ -3,7 +3,7 @@
 
 use super::InvertedPartition;
 use crate::scalar::inverted::query::Tokens;
-use std::collections::HashMap;
+use std::collections::{HashMap, HashSet};
 
 // the Scorer trait is used to calculate the score of a token in a document
 // in general, the score is calculated as:
@@ -47,8 +47,13 @@ impl MemBM25Scorer {
     pub fn update(&mut self, tokens: &Tokens) {
         self.total_tokens += tokens.len() as u64;
         self.num_docs += 1;
+        // `token_docs` counts the documents that contain the token,
+        // so a token that is repeated in the document is counted once
+        let mut seen = HashSet::new();
         for token in tokens {
-            *self.token_docs.entry(token.clone()).or_insert(0) += 1;
+            if seen.insert(token) {
+                *self.token_docs.entry(token.clone()).or_insert(0) += 1;
+            }
         }
     }
 
@@ -57,7 +62,7 @@ impl MemBM25Scorer {
     }
 
     pub fn avg_doc_length(&self) -> f32 {
-        (self.total_tokens / self.num_docs as u64) as f32
+        self.total_tokens as f32 / self.num_docs as f32
     }
 
     pub fn num_docs_containing_token(&self, token: &str) -> usize {
@@ -133,4 +138,39 @@ impl Scorer for IndexBM25Scorer<'_> {
 pub fn idf(token_docs: usize, num_docs: usize) -> f32 {
     let num_docs = num_docs as f32;
     ((num_docs - token_docs as f32 + 0.5) / (token_docs as f32 + 0.5) + 1.0).ln()
+}
+
+#[cfg(test)]
+mod tests {
+    use super::*;
+    use crate::scalar::inverted::lance_tokenizer::DocType;
+
+    fn tokens(text: &str) -> Tokens {
+        Tokens::new(
+            text.split_whitespace().map(|t| t.to_owned()).collect(),
+            DocType::Text,
+        )
+    }
+
+    #[test]
+    fn test_mem_scorer_counts_documents() {
+        let mut scorer = MemBM25Scorer::new(0, 0, HashMap::new());
+        scorer.update(&tokens("bee bee bee ant"));
+        scorer.update(&tokens(""));
+        scorer.update(&tokens("bee"));
+        // 2 of the 3 documents contain "bee", however often it is repeated
+        assert_eq!(scorer.num_docs(), 3);
+        assert_eq!(scorer.num_docs_containing_token("bee"), 2);
+        assert_eq!(scorer.num_docs_containing_token("ant"), 1);
+        assert!(idf(scorer.num_docs_containing_token("bee"), scorer.num_docs()) > 0.0);
+        // 5 tokens in 3 documents, the average must not be truncated
+        assert!((scorer.avg_doc_length() - 5.0 / 3.0).abs() < 1e-6);
+
+        // the average document length is less than one token
+        let mut scorer = MemBM25Scorer::new(0, 0, HashMap::new());
+        scorer.update(&tokens(""));
+        scorer.update(&tokens(""));
+        scorer.update(&tokens("ant"));
+        assert!(scorer.avg_doc_length() > 0.0);
+    }
 }
